@@ -1048,7 +1048,7 @@ def run(ctx: vlib.Ctx):
         "CodeBuilder.dataclass_fields (K5): classes are abstracted to getattr(cls, '__dataclass_fields__') per MRO entry, own annotated names and cls.__dict__; x[-1:0:-1] / x[1:] are named primitives validated against CPython; that @dataclass fills __dataclass_fields__ as CPython does is not modelled (the real-class runs with inherited / re-declared fields cover it)",
         "positions below a field (Positions.v, K5PKernel.compile): translated = Registry.get, the first handler, the spec.copy of the NewType / Optional / collection-element / Union-member / tuple-item / NamedTuple-field / TypedDict-key descent sites, the class handed to get_(un)pack_method_flags at the dataclass and Self call sites, get_pack_method_flags (K8) and get_unpack_method_flags (K5P); hand-written glue (tied by the real-class path cases only) = which descent site a type takes (is_new_type / is_optional / collection / union dispatch of pack_/unpack_special_typing_primitive and *_collection), that a declined node continues with that site, the fresh ValueSpec of a dataclass field (checked textually), Tuple[Self, ...] treated like a collection element, and that the generated method runs with `dialect` = the forwarded keyword",
         "which descent site a type takes: K5D translates the if/elif chains of pack_/unpack_special_typing_primitive and pack_/unpack_collection over their own test expressions (kept as text); the outcome of each test for a concrete type is computed by the library's predicates in the harness (K5D-dispatch-vs-python) - the predicates themselves (is_new_type, is_optional, issubclass ...) and the registry order between the handlers other than special-before-collection are not modelled",
-        "PositionsV.compile_v: the path cases carry, per position, the valuation of the dispatch tests computed with the library's predicates on the real type object, and the translated chains (K5D) choose the descent site; still hand-modelled: that a dataclass type is taken by the dataclass handler before the chains (VData), and the handlers registered between the special-typing and the collection handler decline for these types",
+        "RegistryWalk.compile_r (round 6): K5R translates the @register order of pack.py / unpack.py and the guard of every registered handler (try/except-return-None and suppress() as `_raises(...)` pseudo-tests, the Discriminator loop of unpack_dataclass as an any(...) pseudo-test); every position of a path case carries the valuation of ALL handler tests computed with the library's predicates on the real type object, and the walk of the whole translated registry chooses the handler (dataclass handler before the chains, the handlers between the chains declining: proved from the translation, C10_registry_dataclass / C10_registry_chains); K5R-registry-walk-vs-real-registry walks the REAL PackerRegistry / UnpackerRegistry on real specs and compares the answering handler. Still hand-modelled: the valuation of a dataclass position of a path case is computed on a stand-in dataclass with the same mixin bases (the handlers registered before the dataclass handler look only at the class), Registry.get's loop itself is matched textually, and what a handler tagged `other` / `final` does is outside the model",
         "value-dependent selection among Union members (which member packs/unpacks a value) is C11's subject: path cases always use the first member and a second member (int) that never accepts the value",
     ]
     ctx.assumptions += ["strategy values are pass_through, dicts with serialize/deserialize entries, or SerializationStrategy instances (other values are ignored by the code; covered only by the kernel validation)"]
@@ -1062,15 +1062,17 @@ def run(ctx: vlib.Ctx):
     br5 = ctx.theorems("props/C10_dispatch.vo", ["C10_dispatch_optional", "C10_dispatch_union", "C10_dispatch_newtype", "C10_dispatch_self",
                                                  "C10_dispatch_named_tuple", "C10_dispatch_tuple", "C10_dispatch_list",
                                                  "C10_dispatch_typed_dict", "C10_dispatch_mapping"], kernels=["K5D"])
-    proofs_ok = br.ok and br2.ok and br3.ok and br4.ok and br5.ok and br6.ok and all(ctx.kernel_report.get(k, {}).get("ok") for k in ("K5", "K5P", "K8"))
+    br7 = ctx.theorems("props/C10_registry.vo", ["C10_registry_first_answer", "C10_registry_dataclass", "C10_registry_chains",
+                                                 "C10_positions_registry"], kernels=["K5", "K5P", "K8", "K5D", "K5R"])
+    proofs_ok = br.ok and br2.ok and br3.ok and br4.ok and br5.ok and br6.ok and br7.ok and all(ctx.kernel_report.get(k, {}).get("ok") for k in ("K5", "K5P", "K8", "K5R"))
     if proofs_ok and not ctx.quick():
         # second opinion: the independent checker on the compiled property files
         with vlib.Lock("build"):
             rc, out, _ = vlib.run(["timeout", "600", "coqchk", "-silent", "-o", "-Q", "theories", "Verif", "-Q", "gen", "VerifGen",
-                                   "-Q", "props", "VerifProps", "VerifProps.C10_precedence", "VerifProps.C10_single", "VerifProps.C10_fields", "VerifProps.C10_positions", "VerifProps.C10_dispatch", "VerifProps.C10_positions_dispatched"],
+                                   "-Q", "props", "VerifProps", "VerifProps.C10_precedence", "VerifProps.C10_single", "VerifProps.C10_fields", "VerifProps.C10_positions", "VerifProps.C10_dispatch", "VerifProps.C10_positions_dispatched", "VerifProps.C10_registry"],
                                   cwd=vlib.COQ, timeout=640)
         ok = rc == 0 and "Axioms: <none>" in out
-        ctx.obligation("coqchk -o (C10_precedence, C10_single, C10_fields, C10_positions, C10_dispatch, C10_positions_dispatched): no axioms", ok, out[-600:])
+        ctx.obligation("coqchk -o (C10_precedence, C10_single, C10_fields, C10_positions, C10_dispatch, C10_positions_dispatched, C10_registry): no axioms", ok, out[-600:])
         if not ok:
             ctx.not_shown("coqchk", out[-1500:])
 
@@ -1078,6 +1080,7 @@ def run(ctx: vlib.Ctx):
     registry_validation(ctx, ctx.budget(150, 1500))
     fields_validation(ctx, ctx.budget(150, 1500))
     dispatch_validation(ctx, ctx.budget(40, 300))
+    registry_walk_validation(ctx, ctx.budget(30, 250))
 
     cases = generate_cases(ctx)
     if not proofs_ok and ctx.quick():
@@ -1214,15 +1217,21 @@ def paths_part(ctx: vlib.Ctx, proofs_ok: bool):
 
     done = False
     kr = ctx.kernel_report
-    # without PositionsV the valuated path is carried along but not interpreted
-    local_vnode = ("Inductive VNODE := VType (p: string -> bool) (decl: kv) | VSelf (p: string -> bool) (f: fieldopts) (decl: kv) "
-                   "| VData (f: fieldopts) (decl: kv).\n")
-    if all(kr.get(k, {}).get("ok") for k in ("K5", "K5P", "K8", "K5D")):
+    if all(kr.get(k, {}).get("ok") for k in ("K5", "K5P", "K8", "K5D", "K5R")):
+        vb = vlib.coq_make(["theories/RegistryWalk.vo"])
+        if vb.ok:
+            done = compare("positions-real-classes-vs-registry-walk-compile-and-model",
+                           "PyK_strat OptProj Strategies Positions K5Kernel K5PKernel Dispatch PositionsV RegistryWalk",
+                           "From VerifGen Require Import K5 K5D K5R.", cp.COQ_DEFS + cp.COQ_OK_REGISTRY,
+                           ["theories/RegistryWalk.vo"])
+        else:
+            ctx.notes.append("RegistryWalk.v does not build against the translated kernels: " + (vb.error or "")[:300])
+    if not done and all(kr.get(k, {}).get("ok") for k in ("K5", "K5P", "K8", "K5D")):
         vb = vlib.coq_make(["theories/PositionsV.vo"])
         if vb.ok:
             done = compare("positions-real-classes-vs-dispatched-compile-and-model",
                            "PyK_strat OptProj Strategies Positions K5Kernel K5PKernel Dispatch PositionsV",
-                           "From VerifGen Require Import K5 K5D.", "Definition VNODE := vnode.\n" + cp.COQ_DEFS + cp.COQ_OK_DISPATCHED,
+                           "From VerifGen Require Import K5 K5D.", cp.COQ_DEFS + cp.COQ_OK_DISPATCHED,
                            ["theories/PositionsV.vo"])
         else:
             ctx.notes.append("PositionsV.v does not build against the translated kernels: " + (vb.error or "")[:300])
@@ -1231,12 +1240,144 @@ def paths_part(ctx: vlib.Ctx, proofs_ok: bool):
         if kb.ok:
             done = compare("positions-real-classes-vs-compile-and-model",
                            "PyK_strat OptProj Strategies Positions K5Kernel K5PKernel",
-                           "From VerifGen Require Import K5.", local_vnode + cp.COQ_DEFS + cp.COQ_OK_KERNEL, ["theories/K5PKernel.vo"])
+                           "From VerifGen Require Import K5.", cp.COQ_DEFS + cp.COQ_OK_KERNEL, ["theories/K5PKernel.vo"])
         else:
             ctx.notes.append("K5PKernel.v does not build against the translated kernels: " + (kb.error or "")[:300])
     if not done:
-        compare("positions-real-classes-vs-model", "PyK_strat OptProj Strategies Positions", "", local_vnode + cp.COQ_DEFS + cp.COQ_OK_MODEL,
+        compare("positions-real-classes-vs-model", "PyK_strat OptProj Strategies Positions", "", cp.COQ_DEFS + cp.COQ_OK_MODEL,
                 ["theories/Positions.vo"])
+
+
+def registry_walk_validation(ctx: vlib.Ctx, n_terms: int):
+    """(T) tie of K5R (+ K5D): for real type objects the REAL registries (PackerRegistry / UnpackerRegistry of the
+    library) are walked on a real ValueSpec of a real CodeBuilder - which registered handler is the first to answer -
+    and the translated walk (RegistryWalk.walk_d) under the valuation of the handlers' own tests for that type
+    (library predicates) must name the same handler."""
+    import collections
+    import datetime
+    import decimal
+    import enum
+    import fractions
+    import ipaddress
+    import pathlib
+    import typing
+    import uuid
+    from dataclasses import dataclass
+    from mashumaro import DataClassDictMixin
+    from mashumaro.core.meta.code.builder import CodeBuilder
+    from mashumaro.core.meta.helpers import get_type_origin, is_annotated
+    from mashumaro.core.meta.types.common import FieldContext, ValueSpec
+    from mashumaro.core.meta.types.pack import PackerRegistry
+    from mashumaro.core.meta.types.unpack import UnpackerRegistry
+    from mashumaro.types import GenericSerializableType, SerializableType
+    from harness.props import c10_paths as cp
+    name = "K5R-registry-walk-vs-real-registry"
+    rng = ctx.rng
+
+    @dataclass
+    class Holder(DataClassDictMixin):
+        x: int = 0
+
+    @dataclass
+    class ListDc(list, DataClassDictMixin):        # a dataclass that is also a collection: the dataclass handler is first
+        y: int = 0
+
+    class Ser1(SerializableType):
+        def _serialize(self):
+            return 1
+
+        @classmethod
+        def _deserialize(cls, v):
+            return cls()
+
+    class GSer(GenericSerializableType):
+        def _serialize(self, types):
+            return 1
+
+        @classmethod
+        def _deserialize(cls, v, types):
+            return cls()
+
+    class En(enum.Enum):
+        A = 1
+
+    class StrEn(str, enum.Enum):
+        A = "a"
+
+    class NTup(typing.NamedTuple):
+        a: int
+
+    class TDict(typing.TypedDict):
+        a: int
+    NT = typing.NewType("NT", int)
+    T = typing.TypeVar("T")
+    objs = [(repr(t)[:60], t) for t in (
+        int, float, bool, type(None), str, bytes, bytearray, datetime.date, datetime.datetime, datetime.time, datetime.timedelta,
+        datetime.timezone, uuid.UUID, decimal.Decimal, fractions.Fraction, ipaddress.IPv4Address, ipaddress.IPv6Network,
+        pathlib.Path, pathlib.PurePosixPath, typing.Pattern, En, StrEn, NTup, TDict, NT, typing.Any, typing.Final[int],
+        typing.Self, typing.Optional[typing.Self], typing.Tuple[typing.Self, ...], typing.Optional[int], typing.Union[int, str],
+        typing.List[int], typing.Dict[str, int], typing.Tuple[int, str], typing.Tuple[int, ...], typing.Set[int],
+        typing.FrozenSet[int], typing.Deque[int], collections.deque, typing.Mapping[str, int], typing.Sequence[int],
+        collections.OrderedDict, typing.ChainMap[str, int], typing.Counter[str], typing.DefaultDict[str, int], list, dict, tuple,
+        typing.Literal[1, "a"], typing.AnyStr, T, typing.Annotated[int, "m"], typing.Annotated[typing.List[int], "m"],
+        typing.List[Holder], typing.Optional[Holder], Ser1, GSer, typing.Annotated[Holder, "m"])]
+    for entry in ("mixin", "mixin_fmt", "codec_dc"):
+        objs.append((f"path-case dataclass stand-in ({entry})", cp.standin_dataclass(entry)))
+    objs += [("dataclass with the mixin", Holder), ("dataclass that is a list subclass", ListDc)]
+    for _ in range(n_terms):
+        term = cp.Term(cp.gen_type(rng))
+        ns = {}
+        exec("import datetime, decimal\nfrom typing import *\n" + "\n".join(term.defs), ns)
+        for nd in term.nodes:
+            objs.append((f"{nd['kind']} {nd['ex']}", ns[nd["ex"]]))
+
+    def real_walk(side, t):
+        reg = PackerRegistry if side == "pack" else UnpackerRegistry
+        b = CodeBuilder(Holder)
+        b.reset()
+        spec = ValueSpec(type=t, expression="value", builder=b, field_ctx=FieldContext(name="x", metadata={}))
+        for h in reg._registry:
+            try:
+                r = h(spec.copy())
+            except Exception:  # noqa: BLE001  (the handler that raises is the one that took the type)
+                return h.__name__
+            if r is not None:
+                return h.__name__
+        return ""
+
+    cases, descr = [], []
+    for what, t in objs:
+        if is_annotated(t):         # Registry.get hands the handlers the un-annotated type
+            t = get_type_origin(t)
+        for side in ("pack", "unpack"):
+            try:
+                real = real_walk(side, t)
+                vals = cp.true_tests(t, side)
+            except Exception as e:  # noqa: BLE001
+                ctx.notes.append(f"registry walk validation: {what} skipped ({type(e).__name__})")
+                continue
+            cases.append(f"({'Ser' if side == 'pack' else 'De'}, [{'; '.join(vlib.coq_str(x) for x in vals)}], {vlib.coq_str(real)})")
+            descr.append(f"{side} {what} -> real handler {real}")
+            ctx.hist("registry_walk_handler", real or "none")
+    if not all(ctx.kernel_report.get(k, {}).get("ok") for k in ("K5D", "K5R")):
+        ctx.correspondence(name, len(cases), -1, "K5R / K5D was not translated")
+        return
+    defs = """
+Definition memv (l: list string) (t: string) : bool := existsb (String.eqb t) l.
+Definition walk_ok (c: dir * list string * string) : bool :=
+  match c with (d, vals, real) => String.eqb (fst (walk_d d (memv vals))) real end.
+"""
+    bad, log = vlib.coq_bad_idx("c10_regwalk", "PyK_strat OptProj Strategies Positions Dispatch PositionsV RegistryWalk",
+                                "From VerifGen Require Import K5D K5R.", defs, cases, "walk_ok", "dir * list string * string",
+                                shard=150, needs=["theories/RegistryWalk.vo"])
+    if bad is None:
+        ctx.correspondence(name, len(cases), -1, log)
+        ctx.not_shown("translation validation K5R (registry walk)", log)
+    else:
+        ctx.correspondence(name, len(cases), len(bad), str([descr[i] for i in bad[:8]]))
+        if bad:
+            ctx.not_shown("translation validation K5R (registry walk)", f"cases {[descr[i] for i in bad[:8]]}")
+    ctx.count(n=len(cases))
 
 
 def dispatch_validation(ctx: vlib.Ctx, n_terms: int):
